@@ -14,7 +14,12 @@ ASSUME = ["the value each operation must return is defined in spec/Diagrams.tla 
           "formal sums are ordered lists of terms: distribution over a sum on the *left* operand and over "
           "single diagrams on either side hold as ==; (a + b) order is row-major",
           "bounded: diagrams of the exhaustive model and simulated histories; sums of 0..3 parallel diagrams "
-          "drawn from the model's states"]
+          "drawn from the model's states",
+          "'in every diagram class': besides the monoidal and rigid machines, law instances (composition, tensor as "
+          "whiskered composite, units, associativity, slice recomposition; dagger involutive / identity on objects / "
+          "reversing composition) are evaluated on diagrams of the circuit (mixed, with measurements and encodings), "
+          "zx, tensor, cartesian and biclosed classes and judged by Trace_ClassLaws; the dagger laws are not demanded "
+          "of cartesian and biclosed diagrams (functions and grammar rules have no adjoints: their boxes refuse dagger)"]
 
 
 def proj_sum(s, names):
@@ -132,10 +137,126 @@ def sums_leg(work, hook_files, coverage, rejected, tier):
     coverage["traces_validated_against_impl"] += clauses["ok"]
 
 
+EMPTY_D = {"dom": [], "cod": [], "boxes": [], "offs": []}
+
+
+def class_laws(d, partner, names, desc):
+    """law instances on a real diagram d of a semantic class (partner: another diagram of the class with
+    partner.dom == d.cod, or None); each row is judged by Trace_ClassLaws!JLaw"""
+    from harness.project import proj_diagram
+    P = lambda x: proj_diagram(x, names, layers=False)
+    rows = []
+
+    def row(law, fn, **kw):
+        r = {"law": law, "a": EMPTY_D, "b": EMPTY_D, "c": EMPTY_D, "r": EMPTY_D, "r2": EMPTY_D, "k": 0, "eq": 1, "exc": "",
+             "desc": desc}
+        try:
+            r.update(fn())
+        except Exception as e:
+            r["exc"] = type(e).__name__
+        r.update(kw)
+        rows.append(r)
+    cls_id = type(d).id
+    # cartesian (functions) and biclosed (one-way grammar rules) are not dagger categories: their boxes refuse .dagger()
+    has_dagger = desc["d"]["cls"] not in ("cartesian", "biclosed")
+    if has_dagger:
+        row("dagger", lambda: {"a": P(d), "r": P(d.dagger()), "r2": P(d.dagger().dagger()), "eq": int(d.dagger().dagger() == d)})
+    row("unit", lambda: {"a": P(d), "r": P(cls_id(d.dom) >> d), "r2": P(d >> cls_id(d.cod)),
+                         "eq": int((cls_id(d.dom) >> d) == d and (d >> cls_id(d.cod)) == d and
+                                   (cls_id(d.dom[:0]) @ d) == d and (d @ cls_id(d.dom[:0])) == d)})
+    for k in range(len(d) + 1):
+        row("slice", lambda: {"a": P(d), "b": P(d[:k]), "c": P(d[k:]), "eq": int((d[:k] >> d[k:]) == d)}, k=k)
+    others = ([("adjoint", lambda: d.dagger())] if has_dagger else []) + ([("pool", lambda: partner)] if partner is not None else [])
+    for tag, mk in others:
+        try:
+            e = mk()
+        except Exception:
+            continue            # already reported by the dagger row
+        if e.dom != d.cod:
+            continue            # not composable (an ill-typed adjoint is reported by the dagger row)
+        row("then", lambda: {"a": P(d), "b": P(e), "r": P(d >> e)})
+        if has_dagger:
+            row("anticomp", lambda: {"a": P((d >> e).dagger()), "b": P(e.dagger()), "c": P(d.dagger()),
+                                     "eq": int((d >> e).dagger() == (e.dagger() >> d.dagger()))})
+        row("tensor", lambda: {"a": P(d), "b": P(e), "r": P(d @ e),
+                               "r2": P(d @ cls_id(e.dom) >> cls_id(d.cod) @ e),
+                               "eq": int((d @ e) == (d @ cls_id(e.dom) >> cls_id(d.cod) @ e))})
+        if e.cod == d.dom:
+            row("assoc", lambda: {"a": P(d), "b": P(e), "c": P(d), "r": P((d >> e) >> d), "r2": P(d >> (e >> d)),
+                                  "eq": int(((d >> e) >> d) == (d >> (e >> d)))})
+        row("tassoc", lambda: {"a": P(d), "b": P(e), "c": P(d), "r": P((d @ e) @ d), "r2": P(d @ (e @ d)),
+                               "eq": int(((d @ e) @ d) == (d @ (e @ d)))})
+    return rows
+
+
+def classes_leg(work, hook_files, coverage, rejected, tier):
+    """'in every diagram class': the laws on diagrams of the circuit, zx, cartesian, biclosed and tensor classes"""
+    from harness import classgen
+    from harness.project import Names
+    names = Names()
+    seed = coverage.get("_seed_classes", 0)
+    rows, per_cls = [], Counter()
+    for cls, descs in classgen.pools(work, tier, seed, n=60 if tier == "quick" else 1500).items():
+        built = []
+        for desc in descs:
+            try:
+                d = classgen.build(desc)
+            except Exception:
+                d = None
+            if d is not None:
+                built.append((desc, d))
+        for i, (desc, d) in enumerate(built):
+            partner = None
+            for j in range(1, len(built)):
+                cand = built[(i + j) % len(built)]
+                if cand[1].dom == d.cod:
+                    partner = cand
+                    break
+            got = class_laws(d, partner[1] if partner else None, names, {"d": desc, "partner": partner[0] if partner else None})
+            rows += got
+            per_cls[cls] += len(got)
+    tf = os.path.join(work, "classlaws.ndjson")
+    core.write_ndjson(tf, [{k: v for k, v in t.items() if k != "desc"} for t in rows])
+    val = core.validate("Trace_ClassLaws", "JLaw", tf, work)
+    clauses = Counter()
+    for t, v in zip(rows, val["verdicts"]):
+        clauses[v[0]] += 1
+        if v[0] != "ok":
+            rejected.append({"clause": v[0], "sig": "class=%s law=%s k=%d exc=%s boxes=%s" % (
+                t["desc"]["d"]["cls"], t["law"], t["k"], t["exc"] or "-", _boxnames(t["desc"]["d"])), "obs": t})
+    # canary: a dagger whose codomain is not the domain must be rejected
+    bad = None
+    for t, v in zip(rows, val["verdicts"]):
+        if v[0] == "ok" and t["law"] == "dagger" and t["a"]["dom"] != t["a"]["cod"]:
+            bad = json.loads(json.dumps({k: v for k, v in t.items() if k != "desc"}))
+            bad["r"]["cod"] = bad["a"]["cod"]
+            break
+    if bad is None:
+        raise core.Machinery("no canary candidate in the class leg")
+    cf = os.path.join(work, "classlaws-canary.ndjson")
+    core.write_ndjson(cf, [bad])
+    got = core.validate("Trace_ClassLaws", "JLaw", cf, work)["verdicts"][0][0]
+    if got == "ok":
+        raise core.Machinery("class-law canary accepted")
+    coverage["class_laws"] = {"law_instances_by_class": dict(per_cls), "by_law": dict(Counter(t["law"] for t in rows)),
+                              "verdicts_by_clause": dict(clauses),
+                              "canary": {"corrupted": "codomain of a recorded adjoint", "rejected_with": got}}
+    coverage["traces_validated_against_impl"] += clauses["ok"]
+
+
+def _boxnames(desc):
+    src = desc.get("src")
+    if isinstance(src, dict) and "layers" in src:
+        return ",".join(str((l.get("g") or l.get("b") or {}).get("k")) for l in src["layers"])
+    return json.dumps(src)[:80]
+
+
 def run(tier, seed, t0):
-    covr, rejr = _diagapi.run("C02", "J02", tier, seed, t0, cls="rigid", invariants=["InvWellTyped", "InvLaws"])
+    covr, rejr = _diagapi.run("C02", "J02", tier, seed, t0, cls="rigid", invariants=["InvWellTyped", "InvLaws"],
+                              extra_hook=classes_leg)
     cov, rej = _diagapi.run("C02", "J02", tier, seed, t0, invariants=["InvWellTyped", "InvLaws", "InvSums"],
                             extra_hook=sums_leg, keep_states=True)
+    cov["class_laws"] = covr.pop("class_laws")
     cov["rigid_machine"] = {k: covr[k] for k in ("states", "transitions", "traces_validated_against_impl", "model", "replay",
                                                  "verdicts_by_clause", "canary")}
     cov["states"] += covr["states"]
@@ -147,6 +268,23 @@ def run(tier, seed, t0):
 def replay(path):
     with open(path) as f:
         rp = json.load(f)
+    obs = rp.get("observation") or {}
+    if "law" in obs and "desc" in obs:
+        from harness import classgen
+        from harness.project import Names
+        d = classgen.build(obs["desc"]["d"])
+        partner = classgen.build(obs["desc"]["partner"]) if obs["desc"].get("partner") else None
+        rows = [t for t in class_laws(d, partner, Names(), obs["desc"]) if t["law"] == obs["law"] and t["k"] == obs["k"]]
+        with core.workdir("C02-replay") as work:
+            tf = os.path.join(work, "laws.ndjson")
+            core.write_ndjson(tf, [{k: v for k, v in t.items() if k != "desc"} for t in rows])
+            rc = 0
+            for v in core.validate("Trace_ClassLaws", "JLaw", tf, work)["verdicts"]:
+                print("re-executed law %s on the %s class: %s" % (obs["law"], obs["desc"]["d"]["cls"], v[0]))
+                if v[0] != "ok":
+                    print("VIOLATION property=C02 replay=%s clause=%s" % (path, v[0]))
+                    rc = 1
+            return rc
     if "call" not in (rp.get("observation") or {}):
         with core.workdir("C02-replay") as work:
             tf = os.path.join(work, "one.ndjson")
